@@ -20,6 +20,12 @@ CLAIMS = {
    text="Complete abstract evaluation of both TryFrom impls for Timestamp (closures inlined, Result combinators / duration_since / as_secs / chrono timestamp / checked narrowing modelled symbolically): the derived (instant range -> result) table must equal {before epoch -> Underflow, 0..=u32::MAX -> Ok(secs), beyond -> Overflow}; plus derived-ordering and use-site propagation checks. Any panic-capable construct or unmodelled call leaves the domain and is reported.",
    technique="abstract interpretation of MIR with symbolic interval predicates; impl-table check",
    note="Trusted: rustc nightly MIR; the std/chrono call models in rules/c20.py (duration_since, as_secs, timestamp, TryInto<u32>) and the Result plumbing models in rules/absint.py; exactness of std/chrono arithmetic."),
+ "C02": dict(cat="other", design="DESIGN.md §3 C02",
+   text="Path-sensitive reachability over verify_signature's MIR with a finite predicate abstraction (discriminant/is_ok/is_empty facts, first-iteration lemma): no abstract state returns Ok(()) without a Verifying::verify call and a propagated verify_digests; each verify call's verdict is binding and its signature/data arguments have the provenance the coverage table requires (header, header++payload for the legacy PGP tag); the pgp verifier's Ok returns are dominated by pgp::Signature::verify's Ok. Universal over all signature-header shapes and verifier verdict patterns; cryptographic soundness and the 'any modification is rejected' consequence are not decided.",
+   technique="path-sensitive dataflow on MIR (predicate abstraction) + provenance terms + dominance"),
+ "C03": dict(cat="other", design="DESIGN.md §3 C03",
+   text="Every PartialEq comparison in verify_digests is classified by the tag getter feeding its declared side and a provenance term of the recomputed side (algorithm, hashed byte ranges in order); polarity, the mismatch edge's error, must-pass-through of the equal edge when the tag is present, the algorithm arm table and the closed set of error exits are decided on the CFG. Decides the structure of the iff for all packages; digest values are not computed.",
+   technique="provenance terms + CFG must-pass-through / edge-removal reachability + arm tables"),
 }
 
 NA = {
